@@ -98,6 +98,7 @@ fn step(target: &str, sni: &str, s: &Value, seed: &mut Rng) -> Value {
     match what {
         "valid" | "tls" => {
             let protos = if s.get("alpn").is_some() { strs(s.get("alpn")) } else { vec!["acme-tls/1".to_string()] };
+            let sni = s.get("sni").and_then(|v| v.as_str()).unwrap_or(sni);
             let r = tls_probe(conn, sni, &protos);
             json!({"do": what, "connected": true, "offered": protos, "result": r})
         }
@@ -109,6 +110,33 @@ fn step(target: &str, sni: &str, s: &Value, seed: &mut Rng) -> Value {
         "connect_close" => {
             drop(conn);
             json!({"do": what, "connected": true})
+        }
+        "rst_close" => {
+            // abortive close: SO_LINGER on with a zero timeout makes close() send RST (TCP only)
+            if let Conn::Tcp(s) = &conn {
+                use std::os::unix::io::AsRawFd;
+                let l = libc::linger { l_onoff: 1, l_linger: 0 };
+                unsafe {
+                    libc::setsockopt(s.as_raw_fd(), libc::SOL_SOCKET, libc::SO_LINGER, &l as *const _ as *const libc::c_void, std::mem::size_of::<libc::linger>() as u32);
+                }
+            }
+            drop(conn);
+            json!({"do": what, "connected": true})
+        }
+        "tls_odd_sni" => {
+            // complete handshakes asking for server names of unusual length / content
+            let mut out = vec![];
+            let mut c = Some(conn);
+            for k in [31usize, 32, 63, 64, 65, 127, 128, 200] {
+                let name: String = format!("{}{}{}", "a".repeat(k - 1 - (seed.below(2) as usize)), "é".repeat(3 + seed.below(30) as usize), ".example.org");
+                let name = if name.len() > 250 { name.chars().take(120).collect::<String>() } else { name };
+                let cc = match c.take() { Some(x) => Ok(x), None => connect(target) };
+                if let Ok(cc) = cc {
+                    let r = tls_probe_sni(cc, &name, &["acme-tls/1".to_string()]);
+                    out.push(json!({"sni_len": name.len(), "ok": r.get("handshake_ok")}));
+                }
+            }
+            json!({"do": what, "connected": true, "handshakes": out})
         }
         "garbage" => {
             let mut c = conn;
